@@ -614,13 +614,13 @@ macro_rules! size_unit {
 // @unit C01.serialized_size.u32 props=C01 kind=complete fn=zvariant::ser::serialized_size,<zvariant::ser::NullWriteSeek.as.std::io::Write>::write timeout=900
 #[cfg(not(verif_skip_c01_serialized_size_u32__complete))]
 size_unit!(c01_serialized_size_u32__complete, u32, b'u', "C01.serialized_size.u32.ok", "C01.serialized_size.u32.equals_bytes_written_incl_padding");
-// @unit C01.serialized_size.u64 props=C01 kind=complete fn=zvariant::ser::serialized_size timeout=900
+// @unit C01.serialized_size.u64 props=C01 kind=complete tier=thorough fn=zvariant::ser::serialized_size timeout=900
 #[cfg(not(verif_skip_c01_serialized_size_u64__complete))]
 size_unit!(c01_serialized_size_u64__complete, u64, b't', "C01.serialized_size.u64.ok", "C01.serialized_size.u64.equals_bytes_written_incl_padding");
 // @unit C01.serialized_size.bool props=C01 kind=complete fn=zvariant::ser::serialized_size timeout=900
 #[cfg(not(verif_skip_c01_serialized_size_bool__complete))]
 size_unit!(c01_serialized_size_bool__complete, bool, b'b', "C01.serialized_size.bool.ok", "C01.serialized_size.bool.equals_bytes_written_incl_padding");
-// @unit C01.serialized_size.u8 props=C01 kind=complete fn=zvariant::ser::serialized_size timeout=900
+// @unit C01.serialized_size.u8 props=C01 kind=complete tier=thorough fn=zvariant::ser::serialized_size timeout=900
 #[cfg(not(verif_skip_c01_serialized_size_u8__complete))]
 size_unit!(c01_serialized_size_u8__complete, u8, b'y', "C01.serialized_size.u8.ok", "C01.serialized_size.u8.equals_bytes_written_incl_padding");
 
